@@ -6,8 +6,8 @@ import (
 
 	"cosmossdk.io/math"
 
-	bankkeeper "github.com/cosmos/cosmos-sdk/x/bank/keeper"
 	authtypes "github.com/cosmos/cosmos-sdk/x/auth/types"
+	bankkeeper "github.com/cosmos/cosmos-sdk/x/bank/keeper"
 )
 
 func modAddr(name string) string { return authtypes.NewModuleAddress(name).String() }
@@ -20,11 +20,11 @@ const (
 // OracleC03 — supply changes only by the documented, exactly quantified events.
 type OracleC03 struct {
 	counters
-	prevSupply   math.Int
-	havePrev     bool
-	initAtEnd    map[int64]bool // height -> minter initialised at the end of that block (observed switch)
-	totalMinted  math.Int
-	mintStartMs  int64
+	prevSupply  math.Int
+	havePrev    bool
+	initAtEnd   map[int64]bool // height -> minter initialised at the end of that block (observed switch)
+	totalMinted math.Int
+	mintStartMs int64
 }
 
 func NewOracleC03() *OracleC03 {
